@@ -10,6 +10,8 @@ The oracle evaluates the property statement directly on the implementation trace
 """
 import itertools
 import json
+import os
+import re
 import time
 from concurrent.futures import ThreadPoolExecutor
 
@@ -19,8 +21,9 @@ HEADER = ('From Coq Require Import List ZArith Bool.\nImport ListNotations.\n'
           'From SDC Require Import Tls.Model.\nOpen Scope Z_scope.')
 
 # the model that is compared with the implementation: True = the repaired _start_event_sink
-# (fixes/C19_shared_sink_scheme.diff); False = the code as found (only if the finding is accepted as known)
-REPAIRED = True
+# (fixes/C19_shared_sink_scheme.diff); False = the code as found (C19_MODEL=as-found: only meaningful if the finding
+# were accepted as a known finding instead of being repaired; the oracle reports the violation either way)
+REPAIRED = os.environ.get('C19_MODEL', 'repaired') != 'as-found'
 
 P_SRV = ['own', 'http', 'https']
 C_MODE = ['none', 'optional', 'enforced', 'enforced_noctx']
@@ -403,7 +406,14 @@ def replay(ctx, rep):
     print('implementation statuses:', statuses(case, tr) if 'crash' not in tr else tr)
     for e in ev_codes(tr):
         print('  impl ', decode(e))
-    print('model:', ctx.coq_eval(HEADER, f'run_case {lit_case(case)}')[-2500:])
+    out = ctx.coq_eval(HEADER, f'run_case {lit_case(case)}')
+    lists = re.findall(r'\[([^\[\]]*)\]', out)
+    if len(lists) >= 2:
+        print('model statuses:         ', [int(x) for x in lists[0].replace(';', ' ').split()])
+        for e in sorted({int(x) for x in lists[1].replace(';', ' ').split()}):
+            print('  model', decode(e))
+    else:
+        print('model:', out[-2500:])
     for party in ('P', 'C'):
         print('insecure events of', party, ':', insecure(party, tr))
     return 0
